@@ -105,7 +105,11 @@ fn seq_transcript(buf: &[u8]) -> (String, String) {
         } else {
             show_e(&mr.record_data_bytes(&m), |b| format!("raw:{}", to_hex(b)))
         };
-        let failed = data.starts_with("E:");
+        if data.starts_with("E:") {
+            // like a failing header call: the pass ends here, with the error
+            items.push(format!("!{}", data));
+            return (flags, items.join(";"));
+        }
         items.push(format!(
             "R:{}:{}:{}:{}:{}:{}:{}:{}:{}",
             f[7],
@@ -118,9 +122,6 @@ fn seq_transcript(buf: &[u8]) -> (String, String) {
             f[5],
             data
         ));
-        if failed {
-            return (flags, items.join(";"));
-        }
     }
     let extra = show_e(&mr.record_marker(), |_| "a-record-that-was-not-encoded".into());
     items.push(format!("END:{}:{}:{}", extra, mr.questions_count(), mr.records_count()));
